@@ -540,6 +540,25 @@ func checkCancel(c CancelCase) error {
 	if r7 := runOn(th, c.Prog, 0, hooks{}); (r7.err != nil) != (base.err != nil) || len(r7.events) != len(base.events) || isCancelled(r7.err, "") {
 		return fmt.Errorf("%s: after the last Uncancel the run differs from the baseline: err=%v (baseline %v), %d effects (baseline %d)", key, r7.err, base.err, len(r7.events), len(base.events))
 	}
+	// The host calls a built-in directly (no Starlark frame on the thread) and that built-in cancels the thread: the
+	// call itself returns normally, and the cancellation is still in force for the next execution.
+	canceller := starlark.NewBuiltin("cancel_now", func(t *starlark.Thread, _ *starlark.Builtin, _ starlark.Tuple, _ []starlark.Tuple) (starlark.Value, error) {
+		t.Cancel("reason-SIX")
+		return starlark.None, nil
+	})
+	if _, err := starlark.Call(th, canceller, nil, nil); err != nil {
+		return fmt.Errorf("%s: a built-in called by the host that cancels the thread and returns normally: err=%v", key, err)
+	}
+	for attempt := 0; attempt < 2; attempt++ {
+		r8 := runOn(th, c.Prog, 0, hooks{})
+		if !isCancelled(r8.err, "reason-SIX") || len(r8.events) != 0 {
+			return fmt.Errorf("%s: execution %d after a host-called built-in cancelled the thread: err=%v, %d effects (expected immediate cancellation)", key, attempt, r8.err, len(r8.events))
+		}
+	}
+	th.Uncancel()
+	if r9 := runOn(th, c.Prog, 0, hooks{}); (r9.err != nil) != (base.err != nil) || len(r9.events) != len(base.events) || isCancelled(r9.err, "") {
+		return fmt.Errorf("%s: after the final Uncancel the run differs from the baseline: err=%v", key, r9.err)
+	}
 	vk.S.Class(fmt.Sprintf("cancel:two=%v,other=%v,limit=%v", c.Two, c.FromOther, c.LimitDelta > 0))
 	if base.events[k-1].depth >= 2 {
 		vk.S.Class("cancel-inside-nested-call")
